@@ -982,7 +982,7 @@ class Canon:
         if not _ends_in_exit(blk):
             blk.append(("ret", K_NONE))
         if blk[-1] == ("ret", K_NONE):
-            blk = _tail_returns(blk)
+            blk = _merge_guard_chain(_tail_returns(blk))
         return _strip_tail_returns(tuple(blk))
 
     def stmt(self, st: ast.stmt) -> list[S]:
@@ -1152,6 +1152,14 @@ def _trivial_getters(cls) -> dict:
     return out
 
 
+def _flat_if(st: S) -> S:
+    """``if a: (if b: B)`` with nothing else in either is ``if a and b: B``"""
+    while isinstance(st, tuple) and len(st) == 4 and st[0] == "if" and st[3] == () and len(st[2]) == 1 \
+            and isinstance(st[2][0], tuple) and len(st[2][0]) == 4 and st[2][0][0] == "if" and st[2][0][3] == ():
+        st = ("if", mk_and([st[1], st[2][0][1]]), st[2][0][2], ())
+    return st
+
+
 def _truth(c: S) -> S:
     """a test: ``len(x) > 0`` asks whether the container x is non-empty, which is what ``x`` itself asks"""
     if isinstance(c, tuple) and c:
@@ -1187,13 +1195,13 @@ def _merge_guard_chain(stmts: list[S]) -> list[S]:
             while k < len(body) and k < len(follow) and body[len(body) - 1 - k] == follow[len(follow) - 1 - k]:
                 k += 1
             last = body[-1]
-            if k and last[0] == "ret" and not (isinstance(last[1], tuple) and last[1][:1] == ("k",)):
+            if k and last[0] == "ret" and (last[1] == K_NONE or not (isinstance(last[1], tuple) and last[1][:1] == ("k",))):
                 b1, b2, common = tuple(body[:len(body) - k]), tuple(follow[:len(follow) - k]), list(follow[len(follow) - k:])
                 if not b1 and not b2:
                     return ([("expr", c)] if _has_effectful_call(c) else []) + common
                 if not b1:
-                    return _merge_guard_chain([("if", mk_not(c), b2, ())]) + common
-                return _merge_guard_chain([mk_if(c, b1, b2)]) + common
+                    return _merge_guard_chain([_flat_if(("if", mk_not(c), b2, ()))]) + common
+                return _merge_guard_chain([_flat_if(mk_if(c, b1, b2))]) + common
         g = ("if", c, tuple(body), ())
         # if a: (if b: T; R); R   ==   if a and b: T; R
         while g[2] and isinstance(g[2][0], tuple) and len(g[2][0]) == 4 and g[2][0][0] == "if" and g[2][0][3] == () \
